@@ -1970,5 +1970,34 @@ fn direct_new_case(idx: u64, rng: &mut Prng, col: &mut Collector) {
         UplinkRemoteSetup::McClassCSessionAns(mu::McClassCSessionAnsPayload),
         UplinkRemoteSetup::McClassBSessionAns(mu::McClassBSessionAnsPayload),
     );
+    // value types built from a slice: checked constructors and their bounds-checked readers
+    let r = trap(|| {
+        use lorawan::types::{ChannelMask, Frequency};
+        let mut n = 0u64;
+        if let Ok(m) = ChannelMask::<2>::new(&data) {
+            for i in 0..40 {
+                bb(m.is_enabled(i).ok());
+            }
+            bb(m.statuses::<16>());
+            bb(m.as_ref().len());
+            n += 1;
+        }
+        if let Ok(m) = ChannelMask::<9>::new(&data) {
+            for i in 0..90 {
+                bb(m.is_enabled(i).ok());
+            }
+            bb(m.statuses::<72>());
+            n += 1;
+        }
+        if let Some(f) = Frequency::new(&data) {
+            touch_freq(&f);
+            n += 1;
+        }
+        n
+    });
+    match r {
+        Ok(n) => accepted += n,
+        Err(t) => col.violation(&format!("C03|direct-new|panic|types|{}", t.file()), "a checked constructor of ChannelMask / Frequency, or a bounds-checked reader of the value it returned, panicked", json!({"input": hex(&data), "panic": t.msg, "loc": t.loc})),
+    }
     col.event_n("direct_new_views", accepted);
 }
